@@ -84,9 +84,19 @@ def run_queries(queries: list[Query], workers: int | None = None, hard_factor: f
                 p.join(5)
                 done.append(i)
             elif not p.is_alive():
-                r = core.QueryResult(name=q.name, params=q.params)
-                r.error = f"worker exited with {p.exitcode} and no result"
-                results[i] = r
+                # the worker may have sent its result and exited between the poll above and this test
+                if pr.poll(0.2):
+                    try:
+                        results[i] = pr.recv()
+                    except (EOFError, OSError) as e:
+                        r = core.QueryResult(name=q.name, params=q.params)
+                        r.error = f"worker died: {e!r}"
+                        results[i] = r
+                else:
+                    r = core.QueryResult(name=q.name, params=q.params)
+                    r.error = f"worker exited with {p.exitcode} and no result"
+                    results[i] = r
+                p.join(5)
                 done.append(i)
             elif time.time() - t0 > q.max_secs * hard_factor + 30:
                 p.kill()
